@@ -14,6 +14,18 @@ code->spec : every real execution (replayed behaviours, directed schedules, seed
              schedule perturbation and slow / failing / blocking / timing-out exporters, a downstream
              processor and the caller mutating the record after Emit) is recorded as ndjson and validated by
              TLC against the total contract monitor BatchLPContract.tla (Trace_BatchLP.tla).
+impl-trace : Trace_BatchLPImpl.tla: a sample of the same recorded executions (every replayed behaviour / directed
+             schedule and the first random scenarios, which also record one Pt line per verif point passed) must be
+             explainable by the ACTIONS of BatchLP.tla itself, TLC inferring the unlogged internal steps (depth
+             first, high-water mark). A trace the contract accepts but the implementation-shaped spec cannot
+             explain is model drift: counted with its first offending line in the evidence, never a verdict.
+pipeline   : SLP.tla (SimpleProcessor, LoggerProvider fan-out in registration order, the view rule of the
+             Processor interface, Emit after Shutdown, Logger.Enabled; abstract batch processor) checked by TLC;
+             `c06 pipeline` scenarios (mixed Simple + Batch processors, modifying processors in front / behind,
+             filters) validated against the total monitor SLPContract.tla.
+repairs    : BatchLP.tla carries two sketched repairs of the shutdown races as constant switches (FixStopDone,
+             FixClosed); TLC decides which named deviations each removes and whether every call still returns
+             (evidence only).
 hooks      : sdk/log needs proposed_fixes/C06-hooks.diff (verif_on/off pair + points). On a tree without it
              the harness is built without the c06hooks tag, the monitor uses its hook-free
              over-approximations, nothing is gate-replayed and the run ends inconclusive (exit 2) unless the
@@ -21,6 +33,7 @@ hooks      : sdk/log needs proposed_fixes/C06-hooks.diff (verif_on/off pair + po
 """
 import json
 import os
+import random
 from concurrent.futures import ThreadPoolExecutor
 
 import vlib
@@ -36,13 +49,22 @@ def tla_set(xs):
     return "{" + ", ".join('"%s"' % x for x in xs) + "}"
 
 
-def mc_defs(e, k, q, b, buf, f, s, faults=False, ticker=True, clone=True, admit="Known"):
+def mc_defs(e, k, q, b, buf, f, s, faults=False, ticker=True, clone=True, admit="Known", abort=False, fixa=False, fixb=False):
     t = lambda x: "TRUE" if x else "FALSE"
     return {"EMITTERS": tla_set(["g%d" % (i + 1) for i in range(e)]),
             "FLUSHERS": tla_set(["f%d" % (i + 1) for i in range(f)]),
             "STOPPERS": tla_set(["s%d" % (i + 1) for i in range(s)]),
             "RECSPER": k, "QCAP": q, "BATCH": b, "BUFSIZE": buf, "FAULTS": t(faults), "TICKER": t(ticker),
-            "CLONE": t(clone), "ADMIT": admit}
+            "CLONE": t(clone), "ADMIT": admit, "ABORT": t(abort), "FIXA": t(fixa), "FIXB": t(fixb)}
+
+
+def slp_defs(e, k, kinds, f, s, mutation="none", admit="Observed", thresh=None):
+    return {"EMITTERS": tla_set(["g%d" % (i + 1) for i in range(e)]),
+            "FLUSHERS": tla_set(["f%d" % (i + 1) for i in range(f)]),
+            "STOPPERS": tla_set(["s%d" % (i + 1) for i in range(s)]),
+            "KINDS": "<<" + ", ".join('"%s"' % x for x in kinds) + ">>",
+            "THRESH": "<<" + ", ".join(str(x) for x in (thresh or [0] * len(kinds))) + ">>",
+            "RECSPER": k, "MUTATION": mutation, "ADMIT": admit}
 
 
 def cfg_name(e, k, q, b, buf, f, s, faults=False, ticker=True):
@@ -136,49 +158,192 @@ def scenario(d):
     return sc
 
 
+# directed schedules for `c06 pipeline` (SLP.tla): natural gates only -- "<g>:<k>@mut<pos>" = the modifying processor at
+# <pos> is entered with that record, "x<pos>@exp.begin" = the exporter behind position <pos> is inside Export,
+# "<s>@exp<pos>.shutdown" = that exporter's Shutdown, call / ret sites
+PIPE_DIRECTED = [
+    # O1: Emit passed the provider's stopped check, Shutdown runs to completion, then the SimpleProcessor exports
+    dict(name="P1-raced-emit-reaches-simple-after-shutdown", kinds=["mut", "simple"], emitters=1, recsPer=1, stoppers=1,
+         script=["g1:1@call", "g1:1@mut1+", "s1@call", "s1@exp2.shutdown", "s1@ret", "g1:1@mut1", "x2@exp.begin", "g1:1@ret"]),
+    # fix b340635: an Emit called after Shutdown returned is not processed by anybody
+    dict(name="P2-emit-after-shutdown-ignored", kinds=["mut", "simple", "batch"], emitters=1, recsPer=1, lateEmits=2, stoppers=1,
+         script=["g1:1@call", "g1:1@ret", "s1@call", "s1@ret", "g1:2@call", "g1:2@ret", "g1:3@call", "g1:3@ret"]),
+    # the view rule: modifications in front are visible, modifications behind and by the caller are not
+    dict(name="P3-view-rule", kinds=["mut", "batch", "mut", "simple", "mut", "batch"], emitters=2, recsPer=3, flushers=1, stoppers=1, phased=True),
+    # two emitters meet at one SimpleProcessor: the second waits for the mutex while the first is inside Export
+    # ("g2:1@ret+" cannot be reached in order on the real code: a 150 ms pause during which g2 reaches the mutex)
+    dict(name="P4-simple-mutex", kinds=["simple"], emitters=2, recsPer=1, stoppers=1,
+         script=["g1:1@call", "x1@exp.begin+", "g2:1@call", "g2:1@ret+", "x1@exp.begin", "g1:1@ret", "g2:1@ret", "s1@call"]),
+    # O3: SimpleProcessor.Shutdown reaches the exporter while an Export is running
+    dict(name="P5-shutdown-during-simple-export", kinds=["simple"], emitters=1, recsPer=1, stoppers=1,
+         script=["g1:1@call", "x1@exp.begin+", "s1@call", "s1@exp1.shutdown", "s1@ret", "x1@exp.begin", "g1:1@ret"]),
+    # the batch processor exports its clone while the Emit is still held in a LATER modifying processor
+    dict(name="P6-batch-exports-before-later-mutator", kinds=["mut", "simple", "batch", "mut"], emitters=1, recsPer=1, flushers=1, stoppers=1,
+         script=["g1:1@call", "g1:1@mut1", "x2@exp.begin", "g1:1@mut4+", "f1@call", "x3@exp.begin", "f1@ret", "g1:1@mut4", "g1:1@ret", "s1@call"]),
+    # only FilterProcessors: Enabled consults them; Emit reaches them regardless
+    dict(name="P7-filters-only", kinds=["filter", "filter"], thresh=[2, 4], emitters=1, recsPer=2, probes=6, stoppers=1, phased=True),
+]
+PIPE_EXPECT = {"P1-raced-emit-reaches-simple-after-shutdown": "obs-simple-export-after-shutdown-raced",
+               "P5-shutdown-during-simple-export": "obs-exporter-shutdown-during-export"}
+
+
+def pscenario(d):
+    sc = dict(kinds=["simple"], thresh=None, emitters=1, recsPer=1, lateEmits=0, flushers=0, stoppers=1, probes=2, maxbatch=2,
+              expMode="ok", phased=False, nattrs=7, perturb=0.0)
+    sc.update(d)
+    if sc["thresh"] is None:
+        sc["thresh"] = [0] * len(sc["kinds"])
+    return sc
+
+
+# model kind (BatchLP.tla mon.bad) -> contract kind (BatchLPContract.tla) for the agreement statistics
+MODEL2CONTRACT = {"D1-flush-during-shutdown": "flush-missed-during-shutdown", "D1-shutdown-during-shutdown": "shutdown-missed-during-shutdown",
+                  "D1-export-after-early-shutdown-return": "export-after-early-shutdown-return", "D2-chunk-aborted": "missed-chunk-aborted",
+                  "D3-flush-exporter-stopped": "flush-missed-exporter-stopped", "D4-enqueue-after-final-flush": "shutdown-missed-raced",
+                  "D5-flush-overtakes-final-flush": "flush-missed-held-by-shutdown", "D6-final-flush-overtaken": "final-flush-overtaken"}
+MODEL_KINDS = set(MODEL2CONTRACT.values()) | {"flush-missed", "shutdown-missed", "out-of-order", "content-changed", "concurrent-export",
+                                              "batch-too-large", "export-after-shutdown"}
+
+
+def impl_validate(ctx, trace_file, label, limit, contract_kinds):
+    """Trace_BatchLPImpl.tla: a sample of the recorded scenarios must be explainable by BatchLP.tla's own actions.
+    Scenarios are grouped by their constants (one TLC start per group, reset between scenarios). Returns a dict of
+    statistics; drift (a scenario no sequence of model actions explains) is evidence, never a verdict."""
+    scen, order, cfgs = {}, [], {}
+    for ln in open(trace_file):
+        r = json.loads(ln)
+        sc = r["sc"]
+        if r["ev"] == "Cfg":
+            cfgs[sc] = r
+            order.append(sc)
+            scen[sc] = []
+        if sc in scen:
+            scen[sc].append((ln, r))
+    elig = []
+    for sc in order:
+        c, last = cfgs[sc], scen[sc][-1][1]
+        if (c.get("kind") == "batch" and c.get("hooks") and c.get("pts") and c.get("untainted") and last["ev"] == "EndScenario"
+                and last.get("quiescent") and len(scen[sc]) <= 4000):
+            elig.append(sc)
+    rnd = random.Random(ctx.seed * 7919 + len(elig))
+    rnd.shuffle(elig)
+    chosen = sorted(elig[:limit])
+    groups = {}
+    for sc in chosen:
+        c = cfgs[sc]
+        key = (c["emitters"], c["recsPer"], c["qcap"], c["maxbatch"], c["bufsize"], tuple(c["flushers"]), tuple(c["stoppers"]))
+        groups.setdefault(key, []).append(sc)
+    stats = {"eligible": len(elig), "scenarios": len(chosen), "groups": len(groups), "explained": 0, "lines": 0, "states": 0,
+             "tlc_starts": 0, "drift": [], "errors": [], "agree": 0, "disagree": []}
+
+    def one(gi, scs):
+        out = {"explained": [], "drift": [], "errors": [], "lines": 0, "states": 0, "starts": 0, "bad": {}}
+        rest = list(scs)
+        while rest:
+            f = os.path.join(ctx.work, "impl-%s-%d.ndjson" % (label, gi))
+            spans = []
+            with open(f, "w") as w:
+                n = 0
+                for sc in rest:
+                    w.writelines(ln for ln, _ in scen[sc])
+                    spans.append((sc, n + 1, n + len(scen[sc])))
+                    n += len(scen[sc])
+            r = ctx.tlc(S, "Trace_BatchLPImpl", "Trace_BatchLPImpl.cfg", workers=1, deque=True, timeout=240,
+                        extra_files={"trace.ndjson": f}, name="impl-%s-%d" % (label, gi), must_pass=False, count=False)
+            out["starts"] += 1
+            out["states"] += r["distinct"]
+            acc = hwm = None
+            for pr in r["prints"]:
+                if isinstance(pr, str) and pr.startswith("ACCEPTED "):
+                    acc = int(pr.split()[1])
+                elif isinstance(pr, str) and pr.startswith("HWM "):
+                    hwm = int(pr.split()[1])
+                elif isinstance(pr, str) and pr.startswith("IMPLEND "):
+                    d = json.loads(pr[8:])
+                    out["bad"].setdefault(d["sc"], []).append(sorted(d["bad"]))
+            if acc == n:
+                out["explained"] += [sc for sc, _, _ in spans]
+                out["lines"] += n
+                break
+            if r["timed_out"] or r["error"] or r["violated"] or hwm is None:
+                out["errors"].append({"group": gi, "scenarios": rest, "error": r["error"] or r["violated"] or "timeout", "out": r["out"]})
+                break
+            # stuck: the scenario holding line `hwm` is the first one no explanation gets through
+            k = next((i for i, (_, a, b) in enumerate(spans) if a <= hwm <= b), len(spans) - 1)
+            sc, a, b = spans[k]
+            out["explained"] += [x for x, _, _ in spans[:k]]
+            out["lines"] += a - 1
+            ev = scen[sc][min(hwm - a, len(scen[sc]) - 1)][1]
+            out["drift"].append({"scenario": sc, "name": cfgs[sc].get("name", ""), "line_in_scenario": hwm - a + 1,
+                                 "first_offending_line": {x: y for x, y in ev.items() if x not in ("digests", "digest")},
+                                 "cfg": {x: cfgs[sc][x] for x in ("emitters", "recsPer", "qcap", "maxbatch", "bufsize", "flushers", "stoppers")}})
+            rest = [x for x, _, _ in spans[k + 1:]]
+        return out
+
+    with ThreadPoolExecutor(max_workers=4) as ex:
+        outs = list(ex.map(lambda kv: one(kv[0], kv[1]), list(enumerate(groups.values()))))
+    for o in outs:
+        stats["explained"] += len(o["explained"])
+        stats["lines"] += o["lines"]
+        stats["states"] += o["states"]
+        stats["tlc_starts"] += o["starts"]
+        stats["drift"] += o["drift"]
+        stats["errors"] += o["errors"]
+        # second opinion: the clauses the implementation-shaped spec's own monitor sees broken on this real trace against
+        # what the contract monitor reported for the same scenario (some explanation of the trace must agree)
+        for sc in o["explained"]:
+            want = sorted(k for k in contract_kinds.get(sc, ()) if k in MODEL_KINDS)
+            got = [sorted({MODEL2CONTRACT.get(b, b) for b in bad}) for bad in o["bad"].get(sc, [])]
+            if want in got:
+                stats["agree"] += 1
+            elif len(stats["disagree"]) < 5:
+                stats["disagree"].append({"scenario": sc, "name": cfgs[sc].get("name", ""), "contract": want, "model": got[:3]})
+    stats["drift"] = stats["drift"][:5]
+    stats["errors"] = stats["errors"][:3]
+    return stats
+
+
 def run(ctx):
     thorough = ctx.tier == "thorough"
     hooks = os.path.exists(os.path.join(vlib.REPO, "sdk", "log", "verif_on.go"))
     ctx.extra["sdk_log_hooks_present"] = hooks
     binp = ctx.go_build("c06", tags="verif,c06hooks" if hooks else "verif")
-    # ------------------------------------------------------------ exhaustive model checking
+    skip_mc = bool(os.environ.get("VERIF_C06_SKIP_MC"))  # mutation experiments only: the model does not change with the tree
+    if skip_mc:
+        ctx.extra["model_checking_skipped"] = True
+    # ------------------------------------------------------------ exhaustive model checking (jobs run side by side)
     #      e  k  q  b buf f  s  faults ticker
-    fam = [(2, 1, 1, 1, 1, 1, 1, False, True),    # two emitters, everything of size one
-           (1, 2, 2, 1, 1, 1, 1, True, True),     # multi-chunk requests + failing exports
-           (1, 3, 2, 1, 2, 1, 1, True, True),     # ring overflow, buffer of two (coverage run)
-           (2, 1, 2, 2, 1, 1, 2, False, False)]   # two stoppers, batch of two
+    fam = [(1, 3, 2, 1, 2, 1, 1, True, True),     # ring overflow, buffer of two, multi-chunk requests (coverage run)
+           (2, 1, 2, 2, 1, 1, 2, False, False),   # two stoppers, batch of two
+           (2, 1, 1, 1, 1, 1, 1, False, True),    # two emitters, everything of size one
+           (1, 2, 2, 1, 1, 1, 1, True, True)]     # multi-chunk requests + failing exports
     if thorough:
         fam += [(2, 2, 2, 2, 1, 1, 1, False, False), (3, 1, 2, 1, 1, 0, 1, False, True), (2, 1, 1, 1, 1, 2, 1, False, False),
                 (1, 2, 2, 1, 1, 1, 2, True, True), (2, 1, 2, 2, 1, 1, 2, False, True)] + THOROUGH_EXTRA
-    skip_mc = bool(os.environ.get("VERIF_C06_SKIP_MC"))  # mutation experiments only: the model does not change with the tree
-    if skip_mc:
-        fam = []
-        ctx.extra["model_checking_skipped"] = True
-    for c in fam:
-        r = ctx.tlc(S, "MC_BatchLP", "MC_BatchLP.cfg", defines=mc_defs(*c), name="mc-" + cfg_name(*c), timeout=6000,
-                    coverage=(c == fam[2]))
-        if c == fam[2]:
-            ctx.extra["zero_coverage_actions"] = sorted(set(r["zero_cov"]))
-            if r["zero_cov"]:
-                ctx.note_inconclusive("vacuity: actions never taken in the coverage run: %s" % sorted(set(r["zero_cov"])))
+    cov_cfg = fam[0]
 
-    # Small TLC jobs run side by side: (a) TLC must find every named deviation when it alone is not admitted
-    # (guards against a vacuous contract), and a missing Clone (content-changed) in the no-clone variant of the
-    # model; (b) liveness under fairness: every call that was made returns; (c) -simulate behaviours.
+    def mc(c):
+        return ctx.tlc(S, "MC_BatchLP", "MC_BatchLP.cfg", defines=mc_defs(*c), name="mc-" + cfg_name(*c), timeout=6000,
+                       coverage=(c == cov_cfg), workers=4, must_pass=False, count=False)
+
+    # Small TLC jobs: (a) TLC must find every named deviation when it alone is not admitted (guards against a vacuous
+    # contract), and a missing Clone (content-changed) in the no-clone variant of the model; (b) liveness under fairness:
+    # every call that was made returns; (c) -simulate behaviours; (d) the sketched repairs; (e) the pipeline model SLP.tla.
     tiny = (1, 1, 1, 1, 1, 1, 2, False, False)
     nk_cfg = {"D2-chunk-aborted": (1, 2, 2, 1, 1, 1, 1, True, False), "D6-final-flush-overtaken": (1, 2, 2, 2, 1, 1, 1, False, False),
               "no-clone": (1, 1, 1, 1, 1, 0, 1, False, False)}
 
-    def noknown(d):
+    def noknown(d, fixa=False, fixb=False, tag=""):
         admit = 'Known \\ {"%s"}' % d if d != "no-clone" else "Known"
-        return ctx.tlc(S, "MC_BatchLP", "MC_BatchLP.cfg", defines=mc_defs(*nk_cfg.get(d, tiny), clone=(d != "no-clone"), admit=admit),
-                       name="mc-noknown-" + d, must_pass=False, count=False, timeout=1200, workers=2)
+        return ctx.tlc(S, "MC_BatchLP", "MC_BatchLP.cfg",
+                       defines=mc_defs(*nk_cfg.get(d, tiny), clone=(d != "no-clone"), admit=admit, abort=(d == "D2-chunk-aborted"), fixa=fixa, fixb=fixb),
+                       name="mc-noknown-" + d + tag, must_pass=False, count=False, timeout=1200, workers=2)
 
     live = [(1, 2, 2, 1, 1, 1, 1, False, False)] + ([(2, 1, 2, 1, 1, 1, 1, False, False), (1, 1, 2, 1, 1, 1, 2, True, True)] if thorough else [])
 
-    def liveness(c):
-        return ctx.tlc(S, "MC_BatchLP", "MC_BatchLP_live.cfg", defines=mc_defs(*c), name="live-" + cfg_name(*c), timeout=6000,
-                       workers=4, must_pass=False)
+    def liveness(c, fixa=False, fixb=False, tag=""):
+        return ctx.tlc(S, "MC_BatchLP", "MC_BatchLP_live.cfg", defines=mc_defs(*c, fixa=fixa, fixb=fixb), name="live-" + cfg_name(*c) + tag,
+                       timeout=6000, workers=4, must_pass=False, count=False)
 
     sims = [(2, 2, 2, 2, 1, 1, 1, True), (2, 1, 1, 1, 1, 1, 2, False), (1, 3, 2, 1, 1, 1, 1, True),
             (3, 2, 2, 1, 2, 2, 0, False), (2, 2, 4, 2, 1, 1, 0, True)] if hooks else []
@@ -190,20 +355,103 @@ def run(ctx):
                        simulate="num=%d" % nsim, depth=400, name="sim-" + cfg_name(e, k, q, b, buf, f, s, faults), timeout=1800,
                        must_pass=False, count=False)
 
-    with ThreadPoolExecutor(max_workers=6) as ex:
-        f_nk = {d: ex.submit(noknown, d) for d in ([] if skip_mc else KNOWN_MODEL + ["no-clone"])}
-        f_live = [(c, ex.submit(liveness, c)) for c in ([] if skip_mc else live)]
+    # (d) the two sketched repairs of the shutdown races. Claimed effect of each (TLC decides): with the switch on, the
+    # model with Admit = Known \ removed must satisfy Contract (exhaustive), every deviation NOT claimed removed must
+    # still be found, and every call must still return under fairness.
+    REPAIRS = {"A-stopDone": dict(fixa=True, fixb=False, removed=["D1-flush-during-shutdown", "D1-shutdown-during-shutdown",
+                                                                   "D1-export-after-early-shutdown-return", "D3-flush-exporter-stopped",
+                                                                   "D5-flush-overtakes-final-flush"]),
+               "B-closedQueue": dict(fixa=False, fixb=True, removed=["D4-enqueue-after-final-flush", "D6-final-flush-overtaken"]),
+               "A+B": dict(fixa=True, fixb=True, removed=[d for d in KNOWN_MODEL if d != "D2-chunk-aborted"])}
+    rep_cfgs = [(1, 2, 2, 2, 1, 1, 2, False, False)] + ([(2, 1, 2, 1, 1, 1, 2, False, True), (1, 2, 2, 1, 1, 2, 1, True, True)] if thorough else [])
+
+    def repair_holds(name, c):
+        r = REPAIRS[name]
+        admit = "Known \\ " + tla_set(r["removed"] + ["D2-chunk-aborted"])
+        return ctx.tlc(S, "MC_BatchLP", "MC_BatchLP.cfg", defines=mc_defs(*c, admit=admit, fixa=r["fixa"], fixb=r["fixb"]),
+                       name="repair-%s-%s" % (name, cfg_name(*c)), must_pass=False, count=False, timeout=3000, workers=3)
+
+    # (e) the pipeline around the batch processor
+    slp_fam = [(2, 1, ["mut", "simple", "batch", "mut"], 1, 1), (2, 2, ["simple"], 0, 2)]
+    if thorough:
+        slp_fam += [(2, 2, ["simple", "simple"], 0, 2), (2, 1, ["batch", "mut", "simple"], 1, 2), (3, 1, ["mut", "simple"], 1, 1),
+                    (2, 2, ["mut", "batch", "mut", "batch"], 1, 1)]
+    slp_live = [(1, 2, ["simple", "batch"], 1, 1)] + ([(2, 1, ["simple", "batch"], 1, 1)] if thorough else [])
+    slp_mut = {"nomutex": "concurrent-export", "skipsecond": "simple-not-exported-at-return", "nostopcheck": "processed-after-shutdown",
+               "noclone": "content-mismatch"}
+
+    def slp(c, mutation="none", admit="Observed", live_=False, tag=""):
+        e, k, kinds, f, s = c
+        return ctx.tlc(S, "MC_SLP", "MC_SLP_live.cfg" if live_ else "MC_SLP.cfg", defines=slp_defs(e, k, kinds, f, s, mutation, admit, thresh=[0] * len(kinds)),
+                       name="slp-%dx%d-%s-f%d-s%d%s" % (e, k, "".join(x[0] for x in kinds), f, s, tag), must_pass=False,
+                       count=False, timeout=3000, workers=3)
+
+    with ThreadPoolExecutor(max_workers=5) as ex:
+        f_mc = [(c, ex.submit(mc, c)) for c in ([] if skip_mc else fam)]
+        f_rep = {(n, c): ex.submit(repair_holds, n, c) for n in ([] if skip_mc else REPAIRS) for c in rep_cfgs}
         f_sim = [(c, ex.submit(simulate, c)) for c in sims]
+        f_live = [(c, ex.submit(liveness, c)) for c in ([] if skip_mc else live)]
+        f_slp = [(c, ex.submit(slp, c)) for c in ([] if skip_mc else slp_fam)]
+        f_nk = {d: ex.submit(noknown, d) for d in ([] if skip_mc else KNOWN_MODEL + ["no-clone"])}
+        # (repair B adds no waiting; its liveness run and the larger configuration are left to the thorough tier)
+        f_rep_live = {n: ex.submit(liveness, tiny if not thorough else live[0], REPAIRS[n]["fixa"], REPAIRS[n]["fixb"], "-repair-" + n)
+                      for n in ([] if skip_mc else REPAIRS) if thorough or REPAIRS[n]["fixa"]}
+        f_rep_left = {(n, d): ex.submit(noknown, d, REPAIRS[n]["fixa"], REPAIRS[n]["fixb"], "-repair-" + n)
+                      for n in ([] if skip_mc else REPAIRS) for d in KNOWN_MODEL if d not in REPAIRS[n]["removed"] and d != "D2-chunk-aborted"}
+        f_slp_mut = {mu: ex.submit(slp, slp_fam[0], mu, "Observed", False, "-" + mu) for mu in ([] if skip_mc else slp_mut)}
+        f_slp_obs = {o: ex.submit(slp, (2, 1, ["mut", "simple", "batch"], 1, 2), "none", 'Observed \\ {"%s"}' % o, False, "-no-" + o[:2])
+                     for o in ([] if skip_mc else ["O1-simple-export-after-shutdown-raced", "O2-provider-flush-during-shutdown",
+                                                   "O3-exporter-shutdown-during-export", "O4-second-shutdown-returns-early"])}
+        f_slp_live = [(c, ex.submit(slp, c, "none", "Observed", True, "-live")) for c in ([] if skip_mc else slp_live)]
+    # (parallel jobs do not touch the shared counters: exhaustive runs that passed are added here)
+    for c, f in f_mc + f_slp:
+        r = f.result()
+        if r["timed_out"] or r["violated"] or r["rc"] != 0 or r["error"]:
+            raise vlib.Inconclusive("TLC %s: %s (model only, not a verdict on the code); see %s"
+                                    % (r["name"], r["violated"] or r["error"] or "timeout", r["out"]))
+        ctx.states += r["distinct"]
+        ctx.transitions += r["generated"]
+        if c == cov_cfg:
+            # FWaitDone / SWaitDone exist only under the sketched repair A (FixStopDone), which is off in this run
+            zero = sorted(set(r["zero_cov"]) - {"FWaitDone", "SWaitDone"})
+            ctx.extra["zero_coverage_actions"] = zero
+            if zero:
+                ctx.note_inconclusive("vacuity: actions never taken in the coverage run: %s" % zero)
     found = {d: f.result()["violated"] for d, f in f_nk.items()}
     ctx.extra["tlc_finds_each_named_deviation"] = found
     for d, v in found.items():
         if v != "Contract":
             ctx.note_inconclusive("model drift: TLC does not find %s when it is not admitted (violated=%s)" % (d, v))
-    for c, f in f_live:
+    for c, f in f_live + f_slp_live:
         r = f.result()
         if r["timed_out"] or r["violated"] or r["rc"] != 0 or r["error"]:
             raise vlib.Inconclusive("TLC liveness run %s failed (model only, not a verdict): violated=%s error=%s timed_out=%s; see %s"
                                     % (r["name"], r["violated"], r["error"], r["timed_out"], r["out"]))
+        ctx.states += r["distinct"]
+        ctx.transitions += r["generated"]
+    # the pipeline model: TLC must find each seeded defect and each admitted observation
+    slp_found = {mu: f.result()["violated"] for mu, f in f_slp_mut.items()}
+    slp_obs = {o: f.result()["violated"] for o, f in f_slp_obs.items()}
+    if not skip_mc:
+        ctx.extra["slp_tlc_finds_each_seeded_defect"] = slp_found
+        ctx.extra["slp_tlc_reaches_each_observation"] = slp_obs
+        for k_, v in list(slp_found.items()) + list(slp_obs.items()):
+            if v not in ("Contract", "Exclusive"):
+                ctx.note_inconclusive("SLP.tla: TLC does not find %s (violated=%s)" % (k_, v))
+    # the sketched repairs: evidence only (a repair that does not do what the notes claim is reported, not a verdict)
+    if not skip_mc:
+        matrix = {}
+        for n, rp in REPAIRS.items():
+            holds = {cfg_name(*c): (f_rep[(n, c)].result()["violated"] or f_rep[(n, c)].result()["error"] or
+                                     ("timeout" if f_rep[(n, c)].result()["timed_out"] else "holds")) for c in rep_cfgs}
+            left = {d: f_rep_left[(n, d)].result()["violated"] == "Contract" for d in KNOWN_MODEL if (n, d) in f_rep_left}
+            lv = f_rep_live[n].result() if n in f_rep_live else None
+            matrix[n] = {"removes": rp["removed"], "contract_without_them": holds,
+                         "still_found": sorted(d for d, v in left.items() if v), "not_found_although_not_claimed": sorted(d for d, v in left.items() if not v and d != "D2-chunk-aborted"),
+                         "every_call_returns": ("thorough tier only" if lv is None else "yes" if not (lv["violated"] or lv["error"] or lv["timed_out"])
+                                                else (lv["violated"] or lv["error"] or "timeout")),
+                         "states": {cfg_name(*c): f_rep[(n, c)].result()["distinct"] for c in rep_cfgs}}
+        ctx.extra["sketched_repairs"] = matrix
 
     # ------------------------------------------------------------ spec -> code: behaviours as gate scripts
     scenarios = []
@@ -234,24 +482,37 @@ def run(ctx):
     res1 = json.load(open(r1))
     # ------------------------------------------------------------ code -> spec: random scenarios
     n = 6000 if thorough else 500
+    npt = 400 if thorough else 60      # the first scenarios also record Pt lines (input of the implementation-level validation)
     t2 = os.path.join(ctx.work, "trace-random.ndjson")
     r2 = os.path.join(ctx.work, "res-random.json")
-    ctx.run([binp, "random", "-n", str(n), "-out", t2, "-res", r2], timeout=3000)
+    ctx.run([binp, "random", "-n", str(n), "-pt", str(npt), "-out", t2, "-res", r2], timeout=3000)
     res2 = json.load(open(r2))
+    # ------------------------------------------------------------ the pipeline around it (SLP.tla)
+    pfile = os.path.join(ctx.work, "pipeline-directed.json")
+    pdir = [pscenario(d) for d in PIPE_DIRECTED for _ in range(4 if thorough else 2)]
+    json.dump(pdir, open(pfile, "w"))
+    npipe = 2500 if thorough else 250
+    t3 = os.path.join(ctx.work, "trace-pipeline.ndjson")
+    r3 = os.path.join(ctx.work, "res-pipeline.json")
+    ctx.run([binp, "pipeline", "-in", pfile, "-n", str(npipe), "-out", t3, "-res", r3], timeout=3000)
+    res3 = json.load(open(r3))
     counters = {}
-    for res in (res1, res2):
+    for res in (res1, res2, res3):
         for k, v in res["counters"].items():
             counters[k] = counters.get(k, 0) + v
     ctx.extra["counters"] = counters
     ctx.extra["tlc_behaviours_replayed"] = nbeh
     ctx.extra["directed_schedules"] = len(scenarios) - nbeh
     ctx.extra["random_scenarios"] = n
+    ctx.extra["pipeline_scenarios"] = {"directed": len(pdir), "random": npipe}
     ctx.add_samples([{"behaviour_script": scenarios[0]["script"][:40]}] if scenarios else [])
     ctx.add_samples(res2["samples"][:1])
+    ctx.add_samples(res3["samples"][:1])
     if hooks and bool(counters.get("hooks")) is False:
         ctx.note_inconclusive("harness was built without the c06hooks tag although the tree has the hooks")
     kinds = {}
     by_scenario = {}
+    kinds_of = {"scripts": {}, "random": {}}    # label -> scenario number -> contract kinds (for the agreement statistics)
     hookfree_unclassified = {}
     for tf, label in ((t1, "scripts"), (t2, "random")):
         viols, accepted = ctx.validate_trace(S, "Trace_BatchLP", "Trace_BatchLP.cfg", tf, name="trace-" + label, timeout=3000)
@@ -260,6 +521,7 @@ def run(ctx):
         for v in viols:
             kind = v["v"]["kind"]
             kinds[kind] = kinds.get(kind, 0) + 1
+            kinds_of[label].setdefault(v["sc"], set()).add(kind)
             if lines is None:
                 lines = open(tf).read().splitlines()
             scen = []
@@ -268,7 +530,8 @@ def run(ctx):
                 rec = json.loads(ln)
                 if rec.get("sc") != v["sc"]:
                     break
-                scen.append(rec)
+                if rec["ev"] != "Pt":
+                    scen.append(rec)
                 if rec["ev"] == "Cfg":
                     cfg = rec
             scen.reverse()
@@ -284,8 +547,49 @@ def run(ctx):
     ctx.extra["violation_kinds_seen"] = kinds
     if hookfree_unclassified:
         ctx.extra["hookfree_unclassified"] = hookfree_unclassified
-    ctx.traces_validated += res1["executed"] + res2["executed"]
-    ctx.evaluations += res1["executed"] + res2["executed"]
+    # pipeline scenarios against the total monitor SLPContract.tla; kinds "obs-*" are observations (the documentation is silent)
+    pviols, paccepted = ctx.validate_trace(S, "Trace_SLP", "Trace_SLP.cfg", t3, name="trace-pipeline", timeout=3000)
+    ctx.extra["trace_lines_pipeline"] = paccepted
+    pkinds, pobs, p_by_scenario = {}, {}, {}
+    plines = None
+    for v in pviols:
+        kind = v["v"]["kind"]
+        if plines is None:
+            plines = open(t3).read().splitlines()
+        scen, cfg = [], {}
+        for ln in plines[:v["line"]][::-1]:
+            rec = json.loads(ln)
+            if rec.get("sc") != v["sc"]:
+                break
+            scen.append(rec)
+            if rec["ev"] == "Cfg":
+                cfg = rec
+        scen.reverse()
+        p_by_scenario.setdefault(cfg.get("name", ""), set()).add(kind)
+        if kind.startswith("obs-"):
+            pobs[kind] = pobs.get(kind, 0) + 1
+            continue
+        pkinds[kind] = pkinds.get(kind, 0) + 1
+        ctx.violation({"kind": kind, "source": "pipeline", "processor": (cfg.get("kinds") or ["?"])[v["v"]["exp"] - 1] if isinstance(v["v"].get("exp"), int) and 0 < v["v"]["exp"] <= len(cfg.get("kinds") or []) else "-"},
+                      replay={"violation": v, "scenario_name": cfg.get("name", ""), "cfg": cfg, "events": scen[-400:]})
+    ctx.extra["pipeline_violation_kinds_seen"] = pkinds
+    ctx.extra["pipeline_observations"] = pobs
+    ctx.extra["pipeline_directed_reproduced"] = {n_: (k_ in p_by_scenario.get(n_, ())) for n_, k_ in PIPE_EXPECT.items()}
+    ctx.traces_validated += res1["executed"] + res2["executed"] + res3["executed"]
+    ctx.evaluations += res1["executed"] + res2["executed"] + res3["executed"]
+    # ------------------------------------------------------------ code -> spec, second level: the implementation-shaped spec itself
+    if hooks:
+        lim = (400, 300) if thorough else (28, 14)
+        iv = {"scripts": impl_validate(ctx, t1, "scripts", lim[0], kinds_of["scripts"]),
+              "random": impl_validate(ctx, t2, "random", lim[1], kinds_of["random"])}
+        ctx.extra["impl_trace_validation"] = iv
+        ndrift = sum(len(x["drift"]) for x in iv.values())
+        nexpl = sum(x["explained"] for x in iv.values())
+        ctx.extra["impl_trace_validation_summary"] = {
+            "scenarios": sum(x["scenarios"] for x in iv.values()), "explained_by_BatchLP_actions": nexpl, "model_drift": ndrift,
+            "tlc_errors": sum(len(x["errors"]) for x in iv.values()), "states": sum(x["states"] for x in iv.values()),
+            "contract_and_model_monitor_agree": sum(x["agree"] for x in iv.values())}
+        ctx.traces_validated += nexpl
     # the directed schedules should actually reproduce the deviations they were written for (binding check)
     if hooks:
         repro = {name: (kind in by_scenario.get(name, ())) for name, kind in EXPECT.items()}
@@ -299,15 +603,24 @@ def run(ctx):
                               "parts ran (model checking, %d real scenarios validated against the hook-free contract, "
                               "no gate replay); unclassifiable near-shutdown observations: %s"
                               % (vlib.REPO, res1["executed"] + res2["executed"], hookfree_unclassified))
-    # auxiliary monitor (thorough): the same random driver under the Go race detector. Data-race freedom is not a
-    # clause of C06 (a missing Clone would also show up as content-changed), so reports are evidence, not verdicts.
+    # auxiliary monitor (thorough): the replayed schedules and the random / pipeline drivers under the Go race detector.
+    # Data-race freedom is not a clause of C06 (a missing Clone would also show up as content-changed), so reports are
+    # evidence, not verdicts.
     if thorough:
         try:
             rbin = ctx.go_build("c06", tags="verif,c06hooks" if hooks else "verif", race=True)
-            p = ctx.run([rbin, "random", "-n", "600", "-out", os.path.join(ctx.work, "trace-race.ndjson"),
-                         "-res", os.path.join(ctx.work, "res-race.json")], timeout=3000, ok_codes=(0, 66),
-                        env={"GORACE": "halt_on_error=0"})
-            ctx.extra["race_detector_reports"] = p.stderr.count("WARNING: DATA RACE")
+            rsample = scenarios[:150] + scenarios[nbeh:]
+            rfile = os.path.join(ctx.work, "scripts-race.json")
+            json.dump(rsample, open(rfile, "w"))
+            reports = {}
+            for label, args in (("replayed_schedules", ["scripts", "-in", rfile]), ("random", ["random", "-n", "600"]),
+                                ("pipeline", ["pipeline", "-in", pfile, "-n", "300"])):
+                p = ctx.run([rbin] + args + ["-out", os.path.join(ctx.work, "trace-race-%s.ndjson" % label),
+                                             "-res", os.path.join(ctx.work, "res-race-%s.json" % label)], timeout=3000, ok_codes=(0, 66),
+                            env={"GORACE": "halt_on_error=0"})
+                reports[label] = p.stderr.count("WARNING: DATA RACE")
+            ctx.extra["race_detector_reports"] = reports
+            ctx.extra["race_detector_schedules_rerun"] = len(rsample)
         except vlib.Inconclusive as e:
             ctx.extra["race_detector_run"] = "not available: %s" % str(e)[:200]
     ctx.exhaustive = False
@@ -318,4 +631,8 @@ def run(ctx):
         "the export timeout is modelled as an exporter error; exporter panics are out of scope",
         "content digest covers timestamp, event name, severity, severity text, body and all attributes; values the API "
         "documents as 'must not be changed after passed' (slice/map/bytes backing arrays) are not mutated",
+        "pipeline scenarios: what overlaps a LoggerProvider.Shutdown call (ForceFlush / second Shutdown returning at once, a raced "
+        "Emit reaching a SimpleProcessor afterwards, exporter.Shutdown during a SimpleProcessor's Export) is only observed: the "
+        "documentation promises nothing there and C06's statement is about the batch processor",
+        "implementation-level trace validation covers a seeded sample of the recorded scenarios; model drift is evidence only",
     ]
